@@ -2,6 +2,8 @@
 import hashlib
 import json
 import os
+import re
+import time
 import subprocess
 import sys
 import time
@@ -118,6 +120,15 @@ def get_facts(cfg='default', repo=None, use_cache=True):
                 os.remove(out + '.tmp')
             r = subprocess.run(['cargo', '+nightly', 'check', '--offline', '--lib'] + CONFIGS[cfg],
                                cwd=repo, env=env, capture_output=True, text=True)
+            if r.returncode != 0 and not re.search(r'^error(\[E\d+\])?:', r.stdout + r.stderr, re.M) or \
+                    (r.returncode != 0 and 'could not compile' in (r.stdout + r.stderr) and not re.search(r'^error\[E\d+\]', r.stdout + r.stderr, re.M)):
+                # no compiler diagnostic: the compiler process itself died (resource pressure under parallel runs);
+                # a real compile error is deterministic and carries an error code - try once more before reporting
+                time.sleep(1.0)
+                if os.path.exists(out + '.tmp'):
+                    os.remove(out + '.tmp')
+                r = subprocess.run(['cargo', '+nightly', 'check', '--offline', '--lib'] + CONFIGS[cfg],
+                                   cwd=repo, env=env, capture_output=True, text=True)
             if r.returncode != 0 or not os.path.exists(out + '.tmp') or os.path.getsize(out + '.tmp') == 0:
                 if os.path.exists(out + '.tmp'):
                     os.remove(out + '.tmp')
